@@ -605,7 +605,15 @@ def analyse(out, case, solver, tasks, varlist, outs, marks, sp, z3):
                     got_b = builtin_value(case, nobj > 1, z3)
                     out['builtin_value'] = got_b
                     if got_b is not None and got_b != 'skip' and got_b != ref:
-                        sem.append(('builtin-optimizer-disagrees', got_b, ref))
+                        # z3.Optimize itself is not reliable (finding F47: raw z3 4.12 returns a non-optimal model in about one
+                        # run in ten on some tiny problems, whatever the priority mode): a defect of the library shows on every
+                        # attempt, z3's on some of them only -- the problem is rebuilt and solved twice more
+                        again = [builtin_value(case, nobj > 1, z3) for _ in range(2)]
+                        out['builtin_value_retries'] = again
+                        if all(g is not None and g != 'skip' and g != ref for g in again):
+                            sem.append(('builtin-optimizer-disagrees', [got_b] + again, ref))
+                        else:
+                            sem.append(('builtin-optimizer-unreliable', [got_b] + again, ref))
         if mode == 'enumerate':
             # brute force: all distinct projections of the base
             s = base_check()
